@@ -83,7 +83,7 @@ Holds(p) ==
     [] p = "C02" -> C02
     [] p = "C03" -> C03
     [] p = "C04" -> C04
-    [] p = "C05" -> C05
+    [] p = "C05" -> C05 /\ C02         \* "keeps the bare allocation valid": no access to / second release of it
     [] p = "C06" -> C06
     [] p = "C08" -> C08
     [] p = "C14" -> C14
